@@ -154,7 +154,17 @@ SeedSibling == {Node(o, <<Node(q1, <<La, d1, Node("EQUAL", <<La, La>>)>>), Node(
                     o \in {"AND", "OR"}, q1 \in {"FORALL"}, q2 \in Quant, d1 \in SibDoms, d2 \in SibDoms, b \in SibBodies}
           \cup {Node("UNION", <<Node("DECLARATIVE", <<La, d1, Node("EQUAL", <<La, La>>)>>), Node("DECLARATIVE", <<La, d2, b>>)>>) : d1 \in SibDoms, d2 \in SibDoms, b \in SibBodies}
           \cup {Node("IMPERATIVE", <<La, Node("FORALL", <<La, d1, Node("EQUAL", <<La, La>>)>>), It(La, d2)>>) : d1 \in SibDoms, d2 \in SibDoms}
-Seeds == UNION {SeedFilter, SeedRec, SeedImp, SeedBind, SeedCall, SeedScope, SeedAxiom, SeedLazy, SeedNested, SeedNested2, SeedSibling}
+\* function definitions (typed as their body under the declared arguments; the declared argument list is reported)
+Arg(n, d) == Node("ARG", <<Loc(n), d>>)
+FDef(args, body) == Node("FUNCDEF", <<Node("ARGS", args), body>>)
+BX1 == Node("BOOLEAN", <<Glob("X1")>>)
+FuncBodiesA == {Node("UNION", <<La, Glob("X1")>>), Node("ENUM", <<La>>), La, Node("CARD", <<La>>), Idx("SMALLPR", <<1>>, <<La>>), Node("IN", <<La, Glob("X1")>>),
+                Node("DECLARATIVE", <<Lb, La, Node("NOTEQUAL", <<Lb, Lb>>)>>), Node("UNION", <<La, BX1>>)}
+FuncBodiesAB == {Node("UNION", <<La, Node("ENUM", <<Lb>>)>>), Node("IN", <<Lb, La>>), Node("TUPLE", <<La, Lb>>), Node("EQUAL", <<La, Lb>>), Node("UNION", <<La, Lb>>)}
+SeedFunc == {FDef(<<Arg("a", d)>>, b) : d \in {Glob("X1"), BX1, X1xX1, Glob("S1"), Node("BOOLEAN", <<Rad("R1")>>), IntLit(1), Glob("D7")}, b \in FuncBodiesA}
+       \cup {FDef(<<Arg("a", d1), Arg("b", d2)>>, b) : d1 \in {BX1, Node("BOOLEAN", <<Rad("R1")>>), Glob("S2")}, d2 \in {Glob("X1"), La, Rad("R1"), BX1}, b \in FuncBodiesAB}
+       \cup {FDef(<<Arg("a", BX1), Arg("a", Glob("X1"))>>, La), FDef(<<Arg("a", BX1)>>, Node("FORALL", <<La, Glob("X1"), Node("EQUAL", <<La, La>>)>>))}
+Seeds == UNION {SeedFilter, SeedRec, SeedImp, SeedBind, SeedCall, SeedScope, SeedAxiom, SeedLazy, SeedNested, SeedNested2, SeedSibling, SeedFunc}
 
 \* value classes of the context: sets and structures with data are values, a function has the class of its body
 GC0 == [n \in {"X1", "C1", "S1", "S2", "A1"} |-> "value"]
@@ -164,10 +174,12 @@ NoVal == [x \in {} |-> 0]
 Outcome(r, t) == IF r.ok THEN [ok |-> TRUE, v |-> EncU(r.v, t), why |-> ""] ELSE [ok |-> FALSE, v |-> 0, why |-> r.v]
 Case(e) == LET t == TypeOf(e, G, F, NoLoc, FALSE) IN
   [e |-> e, ty |-> IF IsBad(t) THEN "BAD:" \o t.id ELSE TypeStr(t),
+   isFunc |-> e.id = "FUNCDEF",
+   args |-> IF IsBad(t) THEN <<>> ELSE LET a == ArgsOf(e, G, F) IN [k \in DOMAIN a |-> [name |-> a[k].name, type |-> TypeStr(a[k].type)]],
    vc |-> IF IsBad(t) THEN "" ELSE VClass(e, GC, FD, {}),
-   vals  |-> IF IsBad(t) THEN <<>> ELSE [i \in 1..Len(Interps) |-> Outcome(Eval(e, Interps[i], FD, NoVal), t)],
+   vals  |-> IF IsBad(t) \/ e.id = "FUNCDEF" THEN <<>> ELSE [i \in 1..Len(Interps) |-> Outcome(Eval(e, Interps[i], FD, NoVal), t)],
    r0 |-> Render(e, FALSE), r1 |-> Render(e, TRUE),
-   kvals |-> IF IsBad(t) THEN <<>> ELSE [i \in 1..Len(Interps) |-> Outcome(EvalK(e, Interps[i], FD, NoVal), t)]]
+   kvals |-> IF IsBad(t) \/ e.id = "FUNCDEF" THEN <<>> ELSE [i \in 1..Len(Interps) |-> Outcome(EvalK(e, Interps[i], FD, NoVal), t)]]
 
 Init == /\ stage = 1
         /\ \/ c \in D0
@@ -177,7 +189,7 @@ Init == /\ stage = 1
            \/ \E x \in D0 : c = Node("ENUM", <<x>>)
            \/ \E o \in SetBinLike \cup Preds, x \in D0, y \in D0 : c = Node(o, <<x, y>>)
            \/ \E q \in Quant \cup {"DECLARATIVE"}, d \in D0, b \in A1log : c = Node(q, <<La, d, b>>)
-Next == /\ stage = 1 /\ stage' = 2 /\ WrapSet # "none"
+Next == /\ stage = 1 /\ stage' = 2 /\ WrapSet # "none" /\ c.id # "FUNCDEF"
         /\ IF IsLogic(c)
            THEN \/ c' = Node("NOT", <<c>>) /\ c.id \notin Quant \cup {"NOT"}
                 \/ \E o \in LogBin, q \in SmallLog : c' = Node(o, <<c, q>>) \/ c' = Node(o, <<q, c>>)
@@ -194,7 +206,7 @@ Emit == PrintT(<<"CASE", ToJson(Case(c))>>)
 \* C02, model level: whatever the rules accept evaluates (strictly) to an error or to a value of the derived type,
 \* and the kleene evaluation agrees with the strict one wherever the strict one is defined
 Sound == LET t == TypeOf(c, G, F, NoLoc, FALSE) IN
-  ~IsBad(t) => \A i \in 1..Len(Interps) :
+  (~IsBad(t) /\ c.id # "FUNCDEF") => \A i \in 1..Len(Interps) :
      LET r == Eval(c, Interps[i], FD, NoVal)  k == EvalK(c, Interps[i], FD, NoVal) IN
      /\ r.ok => InDom(r.v, t, Interps[i])
      /\ r.ok => (k.ok /\ k.v = r.v)
